@@ -195,11 +195,12 @@ def long_calls(res, ctx, rng):
         name = rng.choice(list(H.ONE_PATH_CALLS) + ['BSC_read', 'BSC_write', 'BSC_getpid'])
         if name in H.ONE_PATH_CALLS:
             seq = H.path_syscall(rng, name, 1, error=0, interleave_unrelated=False)
-            seq = seq[:-1] + H.window_filler(rng, n - len(seq)) + seq[-1:]
         else:
-            seq = H.syscall(name, (3, 0x1000, 64, 0), (0, 64, 0, 0), H.window_filler(rng, n - 2))
-        assert len(seq) == n              # the window holds exactly n records, START and END included
-        events = H.materialize(H.on_thread(3, seq))
+            seq = H.syscall(name, (3, 0x1000, 64, 0), (0, 64, 0, 0))
+        # the window holds exactly n records, START and END included; the filler sits right before the END
+        events, _ = H.stretched_events(seq, len(seq) - 1, n, rng, tid=3)
+        if len(events) != n:
+            raise core.Inconclusive('long call: wrong window size')
         n_traces, exc, stage = run_history(events)
         res.case(('long-call', name, n))
         res.count('events_fed', len(events))
